@@ -979,6 +979,17 @@ func (x *Exec) checkInterrupted(rec *StepRecord, nBefore int) {
 	if rec.Resp == nil || rec.Resp.ExecErr != "" || rec.Resp.LoadErr != "" || rec.Resp.Panic != "" {
 		return
 	}
+	if rec.Resp.FirstExecErr != "" {
+		// Execute failed and the caller called it again on the same executor: the second call must not
+		// trust anything the failed call left in memory
+		x.Env.Stats.Add("probe/retry-on-same-executor", 1)
+		for _, v := range x.Viol[nBefore:] {
+			if v.Property == "C08" && v.Oracle == "S1" {
+				x.violate("C02", "E7", "retry-on-same-executor-trusts-failed-run", "Execute failed ("+firstLine(rec.Resp.FirstExecErr)+"), the retry on the same executor returned nil but "+v.Class+": "+v.Detail, nil)
+				return
+			}
+		}
+	}
 	cancelled := false
 	for _, f := range rec.Resp.Fired {
 		if strings.HasSuffix(f, ":cancel") {
